@@ -321,13 +321,14 @@ theorem depthF_le_iff (n : Nat) : ∀ l : List (Text × Py), depthF l ≤ n ↔ 
 /-! ### the persisted dict and the reader's assignments, from the `Gen` tables -/
 
 /-- the dict the writer builds holds exactly the four dicts of the model, and the reader's assignments
-    rebuild the model from it (computed from the `Gen` tables, whatever their order) -/
+    rebuild the model from it — whatever the receiving object `self` held before: every one of its four dicts
+    is rebound (computed from the `Gen` tables, whatever their order) -/
 theorem output_ok (m : PModel) :
     ∃ out, outputOf m Gen.C12.persistWrites = .ok out ∧ (∀ p ∈ out, p ∈ rootItems m) ∧
-      assignAll out Gen.C12.readAssigns PModel.empty = .ok m := by
+      ∀ self : PModel, assignAll out Gen.C12.readAssigns self = .ok m := by
   refine ⟨_, rfl, ?_, ?_⟩
   · simp [rootItems, kCells, kDefinedNames, kFormulae, kRanges]
-  · cases m; rfl
+  · intro self; cases m; cases self; rfl
 
 theorem observe_stripped (cfg : Cfg) (m : PModel) : observe (stripped cfg m) = observe m := by
   unfold stripped; split
